@@ -61,7 +61,7 @@ def stepSort (op : String) (args : List String) : Option String :=
   | "same" => match args with
       | n :: rest => match n.toNat?, pIs rest with
         | some n, some xs =>
-          if n = 0 ∨ xs.length ≠ 2 * n then some "bad-op"
+          if xs.length ≠ 2 * n then some "bad-op"
           else some s!"ok {b01 (sortSame (xs.take n) (xs.drop n))}"
         | _, _ => none
       | _ => none
